@@ -122,6 +122,7 @@ const lazyDumpSrc = `(function(){
 var R=Reflect, out="";
 function rv(v){ var t=typeof v; if (v===null) return "null"; if (t==="object"||t==="function") return "["+t+"]"; if (t==="symbol") return "sym"; if (t==="number"&&v===0&&1/v<0) return "-0"; return t+":"+String(v) }
 function one(name,o){
+  if (o===null || (typeof o!=="object" && typeof o!=="function")) return name+" = "+rv(o)+"\n";
   var s=name+" ext="+R.isExtensible(o)+" protoNull="+(R.getPrototypeOf(o)===null)+" {", ks=R.ownKeys(o);
   for (var i=0;i<ks.length;i++){ var k=ks[i], d=R.getOwnPropertyDescriptor(o,k); s+=(typeof k==="symbol"?"@"+String(k.description):k)+":";
     if (d===undefined) s+="NODESC"; else if ("value" in d) s+="d("+rv(d.value)+","+d.writable+","+d.enumerable+","+d.configurable+")"; else s+="a("+rv(d.get)+","+rv(d.set)+","+d.enumerable+","+d.configurable+")";
@@ -136,7 +137,7 @@ return out;
 func lazyDumpProgram() string {
 	var parts []string
 	for _, t := range lazyTargets {
-		parts = append(parts, fmt.Sprintf("[%q,%s]", t, t))
+		parts = append(parts, fmt.Sprintf("[%q,(function(){ try { return %s } catch(e) { return \"unresolvable\" } })()]", t, t))
 	}
 	return strings.Replace(lazyDumpSrc, "%TARGETS%", strings.Join(parts, ","), 1)
 }
